@@ -157,7 +157,8 @@ class Recorder:
         }
 
 
-def run_given(rec, strategy, body, seed, max_examples, kind=None, max_buckets=3, shrink=True, to_case=None):
+def run_given(rec, strategy, body, seed, max_examples, kind=None, max_buckets=3, shrink=True, to_case=None,
+              shrink_budget=None):
     """Drive `body(value)` with Hypothesis over `strategy`.
 
     `body` evaluates one case: it must call rec.case(...) itself and raise Violation when an oracle fails.
@@ -165,17 +166,29 @@ def run_given(rec, strategy, body, seed, max_examples, kind=None, max_buckets=3,
     bucket excluded so that further root causes are still searched (at most `max_buckets`)."""
     to_case = to_case or (lambda v: v)
     phases = [Phase.generate, Phase.target] + ([Phase.shrink] if shrink else [])
+    if shrink_budget is None:
+        shrink_budget = int(os.environ.get('TCV_SHRINK_BUDGET', '250'))
 
     for attempt in range(max_buckets + 1):
         rec._last_failure = None
+        stt = {'since_failure': None, 'best': None}
 
         def test(value):
+            # bounded shrinking: after `shrink_budget` executions following the first failure only the best failing
+            # case found so far is still evaluated (the shrinker then converges at once); verdicts never depend on it
+            if stt['since_failure'] is not None:
+                stt['since_failure'] += 1
+                if stt['since_failure'] > shrink_budget and digest(to_case(value)) != stt['best']:
+                    return
             try:
                 body(value)
             except Violation as v:
                 case = to_case(value)
                 if rec.handle(case, v, kind):
                     return
+                if stt['since_failure'] is None:
+                    stt['since_failure'] = 0
+                stt['best'] = digest(case)
                 raise
             except Inconclusive as e:
                 rec.inconclusive.append(str(e))
